@@ -1,5 +1,5 @@
 from ..driver import Prop, Suite
-from .. import arcgen
+from .. import arcgen, poolgen
 
 class C14(Prop):
     pid = "C14"; prop_file = "C14.v"
@@ -12,10 +12,21 @@ class C14(Prop):
     def suites(self, tier, rng):
         n = 300 if tier == "quick" else 5000
         return [Suite("arc", arcgen.HEADER, [arcgen.gen_case(rng) for _ in range(n)]),
-                # OgreArc is Sync and clone() takes &self: one handle - possibly the sole one - borrowed and cloned by several threads (oracle only)
-                Suite("shared_handle(oracle only)", arcgen.HEADER, [arcgen.gen_shared_case(rng) for _ in range(n // 2)], compare=False)]
-    def oracle(self, case, recs): return arcgen.oracle(case, recs)
-    def nontrivial(self, case, recs): return arcgen.nontrivial(case, recs)
+                # OgreArc is Sync and clone() takes &self: one handle - possibly the sole one - kept alive by the environment, borrowed and
+                # cloned by several threads (the model's `perm`; in lock-step)
+                Suite("shared_handle", arcgen.HEADER, [arcgen.gen_shared_case(rng) for _ in range(n // 2)]),
+                ] + [
+                # what the last drop ends in: OgreArrayPoolAllocator::dealloc_id with a payload whose destructor is a scheduling point, allocations
+                # racing with releases on an almost exhausted pool - the value must be destroyed BEFORE its slot can be handed out again, or a live
+                # handle's value is destroyed under it (lock-step with the pool model, as in C05)
+                Suite("last_drop_dealloc_" + fl, poolgen.HEADER, [poolgen.gen_drop_case(rng, fl) for _ in range(n // 3)]) for fl in ("atomic", "fullsync")]
+    def oracle(self, case, recs):
+        if case.meta.get("profile") == "pooldrop": return poolgen.oracle_drop(case, recs)
+        return arcgen.oracle(case, recs)
+    def nontrivial(self, case, recs):
+        if case.meta.get("profile") == "pooldrop": return any(r[0] == "ret" and r[2] == 2 for r in recs)
+        return arcgen.nontrivial(case, recs)
     def parse_replay(self, text):
         lines = [l for l in text.splitlines() if l.strip() and not l.startswith("#")]
+        if all(l.startswith("pool") for l in lines): return Suite("replay", poolgen.HEADER, [poolgen.parse_case_line(l) for l in lines])
         return Suite("replay", arcgen.HEADER, [arcgen.parse_case_line(l) for l in lines])
